@@ -234,12 +234,32 @@ func runC14(c *sim.Ctx) *sim.Violation {
 		win, buf := window(t, body)
 		p := freshFor(first, t)
 		typ := typeName(first >> 4)
+		// one time in two the buffer is overwritten BEFORE anything looks at the decoded
+		// packet (a decoder that puts its copying off until first use has nothing left
+		// to copy): what the packet must hold is then taken from a twin, decoded into
+		// the same kind of receiver from a private copy of the bytes
+		var twin mq.Packet
+		if t.Bool(1, 2) {
+			p, twin = drv.Zero(first>>4), drv.Zero(first>>4)
+		}
 		var err error
 		if pi := sim.Guard(func() { err = p.UnmarshalBinary(win) }); pi != nil {
 			return sim.V("C14/"+typ+"/panic:"+pi.Site, "UnmarshalBinary(%s) panicked: %s", hexs(body), pi.Value)
 		}
+		if err == nil && twin != nil {
+			var terr error
+			if pi := sim.Guard(func() { terr = twin.UnmarshalBinary(append([]byte{}, body...)) }); pi != nil || terr != nil {
+				twin = nil
+			}
+		}
 		if err == nil {
-			before, _ := snapshot(p)
+			var before string
+			if twin != nil {
+				before, _ = snapshot(twin)
+				c.Count("probe.buffer-overwritten-before-the-packet-was-first-looked-at")
+			} else {
+				before, _ = snapshot(p)
+			}
 			how := overwrite(t, buf, newFrame())
 			c.Ev("reuse", int64(len(buf)), 0, 0)
 			c.Count("fault.input-buffer-overwritten-after-decode(" + how + ")")
